@@ -260,6 +260,14 @@ def pick(zs, i: int):
     return zs[i]
 
 @move
+def park(z: grid.Grid[Any, Any]):
+    return grid.shift(z, 5.0, 100.0)
+
+@move
+def spread(z: grid.Grid[Any, Any]):
+    return grid.scale(z, 2.0, 3.0)
+
+@move
 def choose(flag: bool, x, y):
     if flag:
         return x
@@ -274,6 +282,12 @@ def kern(b: bool, n: int):
     cw = grid.sub_grid(c2, [0], [0])
     sk = a[1:2, :]
     sk2 = grid.sub_grid(a, [1], [0])
+    pk = park(a)
+    pkv = pk[0:1, :]
+    sp = spread(spec.get_static_trap(zone_id="B"))
+    spv = grid.sub_grid(sp, [0], [0])
+    al = a
+    alv = al[0:1, 0:1]
     if b:
         x = spec.get_static_trap(zone_id="B")
     else:
@@ -292,7 +306,7 @@ def kern(b: bool, n: int):
     for k in range(n):
         u = away()
     t = u[:, 0:1]
-    return (x, y, w, v, u, t, p, q, c, cv, c2, cw, sk, sk2)
+    return (x, y, w, v, u, t, p, q, c, cv, c2, cw, sk, sk2, pk, pkv, sp, spv, al, alv)
 '''
 
 
